@@ -113,6 +113,33 @@ func runCheck(o checkOpts) int {
 			keys = append(keys, k)
 		}
 	}
+	// Modular proofs rest on the postconditions of the functions called. Adding the postconditions of
+	// every function the property's own functions call (transitively) to the property's check was tried
+	// (GOVC_DEPPOSTS=1): it triples the checks rooted in RoundTrip and made slow obligations time out
+	// under load, so it is off; functions in a property's data path are tagged for it instead, and C10
+	// (whose safety proofs use postconditions of all kinds) includes the postconditions of its sweep.
+	depPost := map[string]bool{}
+	if o.prop != "" && o.onlyFunc == "" && os.Getenv("GOVC_DEPPOSTS") == "1" {
+		var roots []*ssa.Function
+		own := map[string]bool{}
+		for _, k := range keys {
+			own[k] = true
+			if f := w.funcs[k]; f != nil {
+				roots = append(roots, f)
+			}
+		}
+		closure := w.reachableFrom(roots)
+		for _, k := range w.specs.Order {
+			ct := w.specs.Contracts[k]
+			if ct.Kind != "func" || ct.Trusted || own[k] {
+				continue
+			}
+			if f := w.funcs[k]; f != nil && closure[f.RelString(nil)] {
+				depPost[k] = true
+				keys = append(keys, k)
+			}
+		}
+	}
 	var reports []*funcReport
 	var missing []string
 	var mu sync.Mutex
@@ -169,7 +196,7 @@ func runCheck(o checkOpts) int {
 		// C10 (no panic): the safety obligations of a function are proved from the postconditions of
 		// the functions it calls, whatever property those postconditions are tagged for; so the
 		// postconditions of every function of the sweep are part of C10's check as well.
-		sweptPost := false
+		sweptPost := depPost[r.Key]
 		if ct := w.specs.Contracts[r.Key]; o.prop == "C10" && ct != nil && reach[r.Key] && len(ct.Safety) == 0 && !ct.Trusted {
 			sweptPost = true
 		}
@@ -264,11 +291,23 @@ func runCheck(o checkOpts) int {
 				time.Sleep(300 * time.Millisecond)
 				ob.Res = solve(ob.Name, q, o.timeout, needAgree)
 			}
+			if ob.Res.Status != "unsat" && (ob.Res.Status == "timeout" || ob.Res.Status == "unknown") && strings.HasPrefix(ob.goal.S, "(=> ") {
+				// An implication whose antecedent cannot hold on this path is discharged by refuting the
+				// antecedent alone: a smaller goal that does not bring the terms of the conclusion (and the
+				// lemma instances they trigger) into the query. Sound: fewer conclusions to prove, same facts.
+				if ante := firstSexp(ob.goal.S[4:]); ante != "" {
+					qa := ob.enc.queryP(ob.seq, []string{"(assert " + ob.reach.S + ")", "(assert " + ante + ")"}, nil, false, ob.keep, ob.Props)
+					if ra := solve(ob.Name+".antecedent", qa, o.timeout, needAgree); ra.Status == "unsat" {
+						ra.Solver += " (antecedent refuted on this path)"
+						ob.Res = ra
+					}
+				}
+			}
 			if ob.Res.Status != "unsat" && (ob.Res.Status == "timeout" || ob.Res.Status == "unknown") {
-				// one retry with the larger portfolio (extra z3 seeds) before reporting: quick 5x the
+				// one retry with the larger portfolio (extra z3 seeds) before reporting: quick 8x the
 				// timeout, thorough 2x and still two agreeing instances
 				if o.timeout < 60 {
-					ob.Res = solveRetry(ob.Name, q, o.timeout*5, 1)
+					ob.Res = solveRetry(ob.Name, q, o.timeout*8, 1)
 				} else {
 					ob.Res = solveRetry(ob.Name, q, o.timeout*2, needAgree)
 				}
@@ -315,6 +354,17 @@ func contractServes(ct *Contract, prop string, reachable bool) bool {
 
 // reachableFromRoundTrip: static call graph closure (static calls, closures, function values).
 func (w *World) reachableFromRoundTrip() map[string]bool {
+	var roots []*ssa.Function
+	for k, f := range w.funcs {
+		if strings.HasSuffix(k, "transport).RoundTrip") {
+			roots = append(roots, f)
+		}
+	}
+	return w.reachableFrom(roots)
+}
+
+// reachableFrom: static call graph closure from the given functions.
+func (w *World) reachableFrom(roots []*ssa.Function) map[string]bool {
 	seen := map[string]bool{}
 	var visit func(f *ssa.Function)
 	visit = func(f *ssa.Function) {
@@ -354,10 +404,8 @@ func (w *World) reachableFromRoundTrip() map[string]bool {
 			visit(a)
 		}
 	}
-	for k, f := range w.funcs {
-		if strings.HasSuffix(k, "transport).RoundTrip") {
-			visit(f)
-		}
+	for _, f := range roots {
+		visit(f)
 	}
 	return seen
 }
